@@ -11,7 +11,7 @@ func parseJKSEntry(e keystore.Entry) Info {
 	info := Info{
 		Description: fmt.Sprintf("%s (%s)", e.Alias, e.Type),
 		Attributes: []Attribute{
-			{"Date", e.Date.Format("2006-01-02T15:04:05Z07:00")},
+			{"Date", e.Date.UTC().Format("2006-01-02T15:04:05Z07:00")},
 		},
 	}
 	for _, c := range e.Certificates {
